@@ -96,7 +96,7 @@ func vfHook(point string) {
 		case 2:
 			runtime.Gosched()
 		case 3:
-			time.Sleep(15 * time.Millisecond)
+			time.Sleep(6 * time.Millisecond)
 		}
 	}
 }
